@@ -10,7 +10,8 @@ package main
 //	(L2) every value it is given is created on the spot and owns what it refers to: a composite
 //	     literal (or its address) whose members of a type with references (pointer, map, slice,
 //	     chan, func, interface) are themselves make(…), new(…), nil or such a literal; new(T); the
-//	     zero value of `var x T`;
+//	     zero value of `var x T`; the result of a function of the analysed packages that has one
+//	     result and returns nothing but such literals (a constructor);
 //	(L3) it does not escape: every use of the variable in the function is one of
 //	     a. the root of a field path `v.f.g` that is read by value (never `&v.f`);
 //	     b. a store `v.f… = e`, `v.f…[k] = e`, `v.f…++` through an OWNED path: field selections
@@ -144,12 +145,47 @@ func (a *analyzer) owning(f *fn, e ast.Expr) bool {
 			}
 		}
 	case *ast.CallExpr:
-		name, _, kind := a.calleeName(f.pkg, x)
+		name, o, kind := a.calleeName(f.pkg, x)
+		if kind == "internal" {
+			return a.constructor(a.byObj[o], 0)
+		}
 		return kind == "builtin" && (name == "make" || name == "new")
 	case *ast.Ident:
 		return x.Name == "nil" && info.Uses[x] == types.Universe.Lookup("nil")
 	}
 	return false
+}
+
+// constructor: a function of the analysed packages that has one result and returns nothing but
+// owning literals (`return &T{…}`), whatever its arguments are.
+func (a *analyzer) constructor(g *fn, depth int) bool {
+	if depth > 3 || g.decl.Type.Results == nil || g.decl.Type.Results.NumFields() != 1 {
+		return false
+	}
+	ok, any := true, false
+	ast.Inspect(g.decl.Body, func(n ast.Node) bool {
+		if _, isLit := n.(*ast.FuncLit); isLit {
+			return false
+		}
+		if r, isRet := n.(*ast.ReturnStmt); isRet {
+			any = true
+			if len(r.Results) != 1 {
+				ok = false
+				return false
+			}
+			switch x := ast.Unparen(r.Results[0]).(type) {
+			case *ast.CompositeLit:
+				ok = ok && a.owning(g, x)
+			case *ast.UnaryExpr:
+				_, isCl := ast.Unparen(x.X).(*ast.CompositeLit)
+				ok = ok && x.Op == token.AND && isCl && a.owning(g, x)
+			default:
+				ok = false
+			}
+		}
+		return ok
+	})
+	return ok && any
 }
 
 // ownedPath: e is `v`, `v.f.g` through struct values (v itself may be a pointer), optionally
